@@ -1450,8 +1450,12 @@ impl<'a> Evaluator<'a> {
                         }
                         _ => Err("truncate: bad arguments".into()),
                     },
-                    (Val::List(l), "drain") => {
+                    (Val::List(l), "drain") if mc.args.len() == 1 && tok(&mc.args[0]) == ".." => {
                         let d: Vec<Val> = l.drain(..).collect();
+                        Ok(Val::List(d))
+                    }
+                    (Val::Str(st), "drain") if mc.args.len() == 1 && tok(&mc.args[0]) == ".." => {
+                        let d: Vec<Val> = st.drain(..).map(Val::Char).collect();
                         Ok(Val::List(d))
                     }
                     (Val::List(l), "dedup") => {
